@@ -30,6 +30,7 @@ from ..engine import (
     parent,
     qualname_of,
     returned_values,
+    slice_text,
     stmt_of,
     walk_no_nested,
 )
@@ -40,6 +41,7 @@ SAFE = "semantiva/utils/safe_eval.py"
 SWEEP = "semantiva/data_processors/parametric_sweep_factory.py"
 VISITOR = "_SafeVisitor"
 EVALUATOR = "ExpressionEvaluator"
+ERROR = "ExpressionError"
 
 # The documented safe grammar (semantiva/utils/safe_eval.py as shipped, restated in
 # the property): arithmetic, boolean and comparison operators, conditional
@@ -426,6 +428,118 @@ def field_covered(kind: str, field: Tuple[str, str, str], must: Set[str], prefix
     return False
 
 
+# ---------------------------------------------------------------------------------------------------------------
+# grammar typing of access paths (``node.func`` is an ``expr``, ``node.keywords[*]`` a ``keyword`` ...): which
+# node kinds can sit at a path, and which attributes each of them has.  Used to decide that a read ``<path>.X``
+# inside the visitor cannot fail with AttributeError (the rejection would then not be the expression error).
+# ---------------------------------------------------------------------------------------------------------------
+def _is_node_class(c: object) -> bool:
+    return isinstance(c, type) and issubclass(c, ast.AST)
+
+
+def _deprecated(c: type) -> bool:
+    return (c.__doc__ or "").startswith("Deprecated")
+
+
+SUM_TYPES: Set[str] = {n for n in dir(ast) if _is_node_class(getattr(ast, n)) and " = " in (getattr(ast, n).__doc__ or "")}
+ALWAYS_ATTRS = {"_fields", "_attributes"}
+NONE_KIND = "None"
+
+
+def kinds_of_type(tname: str) -> Set[str]:
+    """Concrete node kinds an ASDL type denotes (``expr`` -> every expression kind, ``keyword`` -> itself)."""
+    cls = getattr(ast, tname, None)
+    if not _is_node_class(cls):
+        return set()
+    if tname in SUM_TYPES:
+        return {c.__name__ for c in cls.__subclasses__() if not _deprecated(c)}
+    return {tname}
+
+
+def all_node_kinds() -> Set[str]:
+    out: Set[str] = set()
+    for c in ast.AST.__subclasses__():
+        if not _deprecated(c):
+            out |= kinds_of_type(c.__name__)
+    return out
+
+
+def kinds_below(root: str) -> Set[str]:
+    """Node kinds that can occur in a tree rooted at a *root* node, by the grammar (closure over child fields)."""
+    seen: Set[str] = set()
+    todo = [root]
+    while todo:
+        k = todo.pop()
+        if k in seen:
+            continue
+        seen.add(k)
+        for t, _m, _f in asdl_fields(k):
+            if t not in NON_NODE_TYPES:
+                todo.extend(kinds_of_type(t) - seen)
+    return seen
+
+
+def kind_attrs(kind: str) -> Set[str]:
+    cls = getattr(ast, kind, None)
+    if kind == NONE_KIND or not _is_node_class(cls):
+        return set()
+    return set(cls._fields) | set(cls._attributes)
+
+
+def has_attr(kind: str, attr: str) -> bool:
+    return attr.startswith("__") or attr in ALWAYS_ATTRS or (kind != NONE_KIND and attr in kind_attrs(kind))
+
+
+Fact = Tuple[str, Callable[[str], bool], Optional[ast.AST]]  # (path, predicate on the node kind, loop the path's [*] belongs to)
+
+
+def path_type(path: str, root_kinds: Set[str], facts: List[Fact]) -> Optional[Tuple[str, Set[str]]]:
+    """("nodes", kinds) / ("list", element ASDL types) / ("value", {}) for an access path rooted at the node
+    parameter; None when the grammar tables do not describe it.  *facts* narrow the kinds of any prefix."""
+    steps = re.findall(r"^\w+|\.\w+|\[[^\[\]]*\]", path)
+    if "".join(steps) != path or not steps:
+        return None
+    cur: Tuple[str, Set[str]] = ("nodes", set(root_kinds))
+    prefix = steps[0]
+
+    def narrowed(t: Tuple[str, Set[str]], pfx: str) -> Tuple[str, Set[str]]:
+        if t[0] != "nodes":
+            return t
+        preds = [p for fp, p, _l in facts if fp == pfx]
+        return ("nodes", {k for k in t[1] if all(p(k) for p in preds)})
+
+    cur = narrowed(cur, prefix)
+    for step in steps[1:]:
+        prefix += step
+        if step.startswith("."):
+            if cur[0] != "nodes":
+                return None
+            fname = step[1:]
+            found = [(t, m) for k in cur[1] if k != NONE_KIND for t, m, f in asdl_fields(k) if f == fname]
+            if not found:
+                return None
+            if any(m == "*" for _t, m in found):
+                cur = ("list", {t for t, _m in found})
+            elif any(t in NON_NODE_TYPES for t, _m in found):
+                cur = ("value", set())
+            else:
+                kinds: Set[str] = set()
+                for t, m in found:
+                    kinds |= kinds_of_type(t)
+                    if m == "?":
+                        kinds.add(NONE_KIND)
+                cur = ("nodes", kinds)
+        else:
+            if cur[0] != "list":
+                return None
+            if any(t in NON_NODE_TYPES for t in cur[1]):
+                cur = ("value", set())
+            else:
+                cur = ("nodes", set().union(*[kinds_of_type(t) for t in cur[1]]))
+        cur = narrowed(cur, prefix)
+    return cur
+
+
 def _neg(atom: Callable[[ast.AST], Optional[bool]]) -> Callable[[ast.AST], Optional[bool]]:
     def f(e: ast.AST) -> Optional[bool]:
         v = atom(e)
@@ -722,6 +836,243 @@ def run(repo: Repo, R: Report) -> None:
             holds, path, guards = returns_only_through(g, name_allowed)
             R.check(holds and guards > 0, r_cov, fn_rel, f"{VISITOR}.visit_Name", "visit_Name: id in self.allowed_names dominates normal return",
                     "visit_Name can accept a name that is not a declared sweep variable", h.lineno, path)
+
+    # ---------------- D1 reject: a rejection leaves the visitor / compile() as the expression error ----------
+    # "anything else is rejected with the expression error": (a) every raise statement of the visitor's
+    # handlers and of compile() raises ExpressionError (or re-raises), (b) no attribute read on the tree being
+    # validated can fail with AttributeError - the attribute exists on every node kind that can sit at that
+    # access path there (kinds from the interpreter's grammar, narrowed by dominating isinstance / type() /
+    # hasattr / whitelist tests).  generic_visit receives every node kind without a custom handler, operator
+    # and context tokens included, and those carry no position attributes.
+    r_rej = R.rule("C11-D1-reject", "every raise statement of the visitor's handlers and of compile() raises the expression error (ExpressionError or a subclass; bare re-raise allowed)", 3)
+    r_attr = R.rule("C11-D1-node-attrs", "every attribute read on the tree under validation exists on every node kind that can be at that position (else the rejection is an AttributeError, not the expression error)", 3)
+    err_classes: Set[str] = {ERROR}
+    if not any(isinstance(st, ast.ClassDef) and st.name == ERROR for st in mod.tree.body):
+        raise AnalysisError(f"{SAFE}: class {ERROR} vanished")
+    grew = True
+    while grew:
+        grew = False
+        for st in mod.tree.body:
+            if isinstance(st, ast.ClassDef) and st.name not in err_classes and any((dotted_name(b) or "") in err_classes for b in st.bases):
+                err_classes.add(st.name)
+                grew = True
+
+    def is_error_class(e: Optional[ast.AST]) -> bool:
+        return e is not None and (dotted_name(e) or "?").split(".")[-1] in err_classes
+
+    def check_raises(fn: ast.AST, qn: str) -> None:
+        for r in walk_no_nested(fn):
+            if not isinstance(r, ast.Raise):
+                continue
+            exc = r.exc
+            ok = exc is None
+            if isinstance(exc, ast.Call):
+                ok = is_error_class(exc.func)
+            elif isinstance(exc, ast.Name):
+                h = next((a for a in ancestors(r) if isinstance(a, ast.ExceptHandler) and a.name == exc.id), None)
+                if h is not None:
+                    tys = [] if h.type is None else (list(h.type.elts) if isinstance(h.type, ast.Tuple) else [h.type])
+                    ok = bool(tys) and all(is_error_class(t) for t in tys)
+                else:
+                    vals = assigned_value(fn, exc.id)
+                    ok = is_error_class(exc) or (bool(vals) and all(isinstance(v, ast.Call) and is_error_class(v.func) for v in vals))
+            elif exc is not None:
+                ok = is_error_class(exc)
+            R.check(ok, r_rej, fn_rel, qn, norm(r), f"an expression is rejected with `{norm(exc) if exc is not None else 'raise'}`, which is not the expression error ({ERROR})", getattr(r, "lineno", 0))
+
+    universe = kinds_below("Expression")  # what ast.parse(mode="eval") can hand to the visitor
+    handled_kinds = {k for k in list(handlers) + list(alias_handlers) if hasattr(ast, k)}
+
+    def check_node_attrs(fn: ast.FunctionDef, qn: str, root_kinds: Set[str]) -> None:
+        node_param = fn.args.args[1].arg if len(fn.args.args) > 1 else "node"
+        if any(isinstance(x, ast.Name) and x.id == node_param and isinstance(x.ctx, (ast.Store, ast.Del)) for x in walk_no_nested(fn)):
+            return  # the parameter is rebound: paths rooted at it are not the visited node any more (not decided)
+        g = CFG(fn)
+        COMPS = (ast.ListComp, ast.SetComp, ast.GeneratorExp, ast.DictComp)
+
+        def chain_of(n: ast.AST) -> List[ast.AST]:
+            out = [n]
+            for a in ancestors(n):
+                out.append(a)
+                if a is fn:
+                    break
+            return out
+
+        def env_for(n: ast.AST) -> Dict[str, Set[str]]:
+            ch = chain_of(n)
+            binders: List[Tuple[ast.AST, ast.AST]] = []  # (target, iterable), innermost first
+            for j, a in enumerate(ch):
+                child = ch[j - 1] if j > 0 else None
+                if isinstance(a, ast.For) and child is not None and any(child is s for s in a.body):
+                    if isinstance(a.target, ast.Name):
+                        binders.append((a.target, a.iter))
+                    elif (isinstance(a.target, ast.Tuple) and len(a.target.elts) == 2 and isinstance(a.target.elts[1], ast.Name) and isinstance(a.iter, ast.Call)
+                          and call_name(a.iter) == "enumerate" and len(a.iter.args) == 1 and not a.iter.keywords):
+                        binders.append((a.target.elts[1], a.iter.args[0]))
+                elif isinstance(a, COMPS) and child is not None:
+                    gens = list(a.generators)
+                    if isinstance(child, ast.comprehension):
+                        i = next(k for k, gen in enumerate(gens) if gen is child)
+                        grand = ch[j - 2] if j > 1 else None
+                        gens = gens[:i + 1] if any(grand is t for t in child.ifs) else gens[:i]
+                    for gen in reversed(gens):
+                        if isinstance(gen.target, ast.Name):
+                            binders.append((gen.target, gen.iter))
+            env: Dict[str, Set[str]] = {}
+            for tgt, it in reversed(binders):
+                env[tgt.id] = element_paths(it, env, node_param, fn) or set()
+            return env
+
+        def pathsof(e: ast.AST) -> Set[str]:
+            got = access_paths(e, env_for(e), node_param, fn)
+            return {p for p in (got or set()) if not p.startswith(IDX)}
+
+        def loop_of(n: ast.AST) -> Optional[ast.AST]:
+            return next((a for a in chain_of(n)[1:] if isinstance(a, (ast.For,) + COMPS)), None)
+
+        def loops_of(n: ast.AST) -> Set[int]:
+            return {id(a) for a in chain_of(n)[1:] if isinstance(a, (ast.For,) + COMPS)}
+
+        def cls_kinds(c: ast.AST) -> Optional[Set[str]]:
+            out: Set[str] = set()
+            for x in (c.elts if isinstance(c, ast.Tuple) else [c]):
+                dn = dotted_name(x) or ""
+                full = dn if dn.startswith("ast.") else mod.imports.get(dn, "")
+                nm = full[4:] if full.startswith("ast.") else ""
+                if not nm or not _is_node_class(getattr(ast, nm, None)):
+                    return None
+                out |= kinds_of_type(nm)
+            return out
+
+        def guard_facts(e: ast.AST, pol: bool) -> List[Fact]:
+            """What is known about the kinds at access paths when *e* evaluates to *pol*."""
+            if isinstance(e, ast.UnaryOp) and isinstance(e.op, ast.Not):
+                return guard_facts(e.operand, not pol)
+            if isinstance(e, ast.BoolOp):
+                if isinstance(e.op, ast.And) == pol:  # ``and`` true: every conjunct true; ``or`` false: every disjunct false
+                    return [f for v in e.values for f in guard_facts(v, pol)]
+                return []
+            lp = loop_of(e)
+
+            def facts_for(subject: ast.AST, pred: Callable[[str], bool]) -> List[Fact]:
+                ps = pathsof(subject)
+                return [(next(iter(ps)), pred, lp)] if len(ps) == 1 else []
+
+            if isinstance(e, ast.Call) and isinstance(e.func, ast.Name) and not e.keywords and len(e.args) == 2:
+                if e.func.id == "isinstance":
+                    ks = cls_kinds(e.args[1])
+                    if ks is not None:
+                        return facts_for(e.args[0], (lambda k, ks=ks: k in ks) if pol else (lambda k, ks=ks: k not in ks))
+                if e.func.id == "hasattr" and isinstance(e.args[1], ast.Constant) and isinstance(e.args[1].value, str):
+                    a = e.args[1].value
+                    return facts_for(e.args[0], (lambda k, a=a: has_attr(k, a)) if pol else (lambda k, a=a: not has_attr(k, a)))
+            if isinstance(e, ast.Compare) and len(e.ops) == 1:
+                op, right = e.ops[0], e.comparators[0]
+                subject = _type_of_arg(e.left)
+                if subject is not None:
+                    ks2: Optional[Set[str]] = None
+                    if isinstance(op, (ast.Is, ast.Eq, ast.IsNot, ast.NotEq)):
+                        one = cls_kinds(right) if not isinstance(right, ast.Tuple) else None
+                        # ``type(x) is ast.expr`` never holds for a parsed node: only concrete kinds are exact types
+                        ks2 = one if one is not None and len(one) == 1 else None
+                        positive = isinstance(op, (ast.Is, ast.Eq))
+                    elif isinstance(op, (ast.In, ast.NotIn)):
+                        ks2 = cls_kinds(right) if isinstance(right, ast.Tuple) else tables.names(right)
+                        positive = isinstance(op, ast.In)
+                    if ks2 is not None:
+                        return facts_for(subject, (lambda k, ks=ks2: k in ks) if positive == pol else (lambda k, ks=ks2: k not in ks))
+                if isinstance(op, (ast.Is, ast.IsNot)) and isinstance(right, ast.Constant) and right.value is None:
+                    is_none = isinstance(op, ast.Is) == pol
+                    return facts_for(e.left, (lambda k: k == NONE_KIND) if is_none else (lambda k: k != NONE_KIND))
+            if isinstance(e, (ast.Name, ast.Attribute, ast.Subscript)):
+                # truthiness of a node position: a node is true, None is false
+                return facts_for(e, (lambda k: k != NONE_KIND) if pol else (lambda k: k == NONE_KIND))
+            return []
+
+        def protected(n: ast.AST) -> bool:
+            ch = chain_of(n)
+            for j, a in enumerate(ch):
+                if isinstance(a, ast.Try) and j > 0 and any(ch[j - 1] is s for s in a.body):
+                    for h in a.handlers:
+                        tys = [] if h.type is None else (list(h.type.elts) if isinstance(h.type, ast.Tuple) else [h.type])
+                        if h.type is None or any((dotted_name(t) or "").split(".")[-1] in ("AttributeError", "Exception", "BaseException") for t in tys):
+                            return True
+            return False
+
+        done: Set[Tuple[int, str]] = set()
+
+        def check_read(site: ast.AST, base: ast.AST, attr: str, facts: List[Fact]) -> None:
+            if (id(site), attr) in done:
+                return
+            done.add((id(site), attr))
+            paths = pathsof(base)
+            if not paths or protected(site):
+                return
+            inside = loops_of(site)
+            live = [f for f in facts if "[*]" not in f[0] or f[2] is None or id(f[2]) in inside]
+            for p in sorted(paths):
+                t = path_type(p, root_kinds, live)
+                if t is None or t[0] != "nodes":
+                    continue
+                missing = sorted(k for k in t[1] if not has_attr(k, attr))
+                shown = ", ".join(missing[:6]) + (f", ... ({len(missing)} kinds)" if len(missing) > 6 else "")
+                st = stmt_of(site)
+                text = norm(st.test if isinstance(st, (ast.If, ast.While)) else st.iter if isinstance(st, ast.For) else st)
+                R.check(not missing, r_attr, fn_rel, qn, f"{p}.{attr} in `{text}`",
+                        f"`{norm(site)}` is evaluated for a node that may be {shown}, which has no attribute `{attr}`: the expression is refused with "
+                        f"AttributeError instead of {ERROR} (or an accepted expression fails to compile)", getattr(site, "lineno", fn.lineno))
+
+        def scan(e: ast.AST, facts: List[Fact]) -> None:
+            if isinstance(e, ANYFUNC + (ast.ClassDef,)):
+                return  # evaluated later, if at all
+            if isinstance(e, ast.BoolOp):
+                cur = list(facts)
+                for v in e.values:
+                    scan(v, cur)
+                    cur = cur + guard_facts(v, isinstance(e.op, ast.And))
+                return
+            if isinstance(e, ast.IfExp):
+                scan(e.test, facts)
+                scan(e.body, facts + guard_facts(e.test, True))
+                scan(e.orelse, facts + guard_facts(e.test, False))
+                return
+            if isinstance(e, COMPS):
+                cur = list(facts)
+                for gen in e.generators:
+                    scan(gen.iter, cur)
+                    for t in gen.ifs:
+                        scan(t, cur)
+                        cur = cur + guard_facts(t, True)
+                for part in ([e.key, e.value] if isinstance(e, ast.DictComp) else [e.elt]):
+                    scan(part, cur)
+                return
+            if isinstance(e, ast.Attribute) and isinstance(e.ctx, ast.Load):
+                check_read(e, e.value, e.attr, facts)
+            if (isinstance(e, ast.Call) and isinstance(e.func, ast.Name) and e.func.id == "getattr" and len(e.args) == 2 and not e.keywords
+                    and isinstance(e.args[1], ast.Constant) and isinstance(e.args[1].value, str)):
+                check_read(e, e.args[0], e.args[1].value, facts)
+            for c in ast.iter_child_nodes(e):
+                scan(c, facts)
+
+        guards = [(gn, lab, guard_facts(gn.part, pol)) for gn in g.nodes if gn.kind in ("if", "while") and gn.part is not None for lab, pol in (("T", True), ("F", False))]
+        guards = [x for x in guards if x[2]]
+        for n in g.nodes:
+            if n.part is None or n.ast is None or isinstance(n.ast, FuncNode + (ast.ClassDef,)):
+                continue
+            base: List[Fact] = []
+            for gn, lab, fs in guards:
+                if gn.id != n.id and g.dominated_by_edge(n.id, gn.id, lab):
+                    base += fs
+            scan(n.part, base)
+
+    for kind, h in sorted(handlers.items()):
+        if hasattr(ast, kind):
+            check_raises(h, f"{VISITOR}.visit_{kind}")
+            check_node_attrs(h, f"{VISITOR}.visit_{kind}", {kind})
+    if gv is not None:
+        check_raises(gv, f"{VISITOR}.generic_visit")
+        check_node_attrs(gv, f"{VISITOR}.generic_visit", universe - handled_kinds)
+    check_raises(ncomp, COMPILE_QN)
 
     # ---------------- D2 functions: the call-target table and the evaluation environment ----------------------
     funcs_line = visitor.lineno
@@ -1090,7 +1441,24 @@ def run(repo: Repo, R: Report) -> None:
         return None
 
     if not visit_sites:
-        R.violation(r_ord, fn_rel, COMPILE_QN, "_SafeVisitor(...).visit(tree)", "the expression tree is never validated", comp.lineno)
+        # a visitor kept on the evaluator (``self.X = _SafeVisitor(...)`` in the constructor, ``self.X.visit(tree)`` here)
+        # outlives one compile() call: its name whitelist is state shared by every call on that evaluator
+        shared = None
+        for c in calls_in(comp):
+            f = c.func
+            if isinstance(f, ast.Attribute) and f.attr == "visit" and isinstance(f.value, ast.Attribute) and isinstance(f.value.value, ast.Name) and f.value.value.id == "self":
+                made = [n for st in evaluator.body if isinstance(st, FuncNode) for n in ast.walk(st) if isinstance(n, (ast.Assign, ast.AnnAssign)) and n.value is not None
+                        and any(dotted_name(t) == f"self.{f.value.attr}" for t in (n.targets if isinstance(n, ast.Assign) else [n.target]))
+                        and any(isinstance(k, ast.Call) and call_attr(k) == VISITOR for k in ast.walk(n.value))]
+                if made:
+                    shared = (c, f.value.attr, made[0])
+        if shared is not None:
+            c, attr, made = shared
+            R.violation(r_ord, fn_rel, COMPILE_QN, norm(c),
+                        f"the validating visitor is the evaluator attribute self.{attr} (`{norm(made)}`, line {made.lineno}), not one built from this call's allowed_names: "
+                        "its name whitelist is per-evaluator state shared by all compile() calls, so an overlapping / later call validates against another call's variables", c.lineno)
+        else:
+            R.violation(r_ord, fn_rel, COMPILE_QN, "_SafeVisitor(...).visit(tree)", "the expression tree is never validated", comp.lineno)
     else:
         vparam_name = ctor_param
         for vn, vcall, ctor in visit_sites:
@@ -1282,17 +1650,156 @@ def run(repo: Repo, R: Report) -> None:
     if not found:
         raise AnalysisError("create(): call of _compile_parametric_expressions not found")
     ok_any = False
-    for c in calls_in(cpe):
-        callee = c.func
-        if isinstance(callee, ast.Name):
-            callee = local_value(cpe, callee.id) or callee  # ``build = evaluator.compile``
-        if isinstance(callee, ast.Attribute) and callee.attr == "compile":
-            a = c.args[1] if len(c.args) > 1 else kwarg(c, names_param)
-            ok = a is not None and names_unchanged(a, names_p, cpe)
-            ok_any = True
-            R.check(ok, r_sw, SWEEP, CPE, norm(c), "allowed names widened between create() and the evaluator", c.lineno)
+
+    def compile_sites(fn: ast.AST, qn: str, names_in_fn: Optional[str], depth: int = 0) -> None:
+        """evaluator.compile(...) calls of *fn* and of the same-module helpers it hands the names to."""
+        nonlocal ok_any
+        for c in calls_in(fn):
+            callee = c.func
+            if isinstance(callee, ast.Name):
+                callee = local_value(fn, callee.id) or callee  # ``build = evaluator.compile``
+            if isinstance(callee, ast.Attribute) and callee.attr == "compile":
+                a = c.args[1] if len(c.args) > 1 else kwarg(c, names_param)
+                ok = a is not None and names_in_fn is not None and names_unchanged(a, names_in_fn, fn)
+                ok_any = True
+                R.check(ok, r_sw, SWEEP, qn, norm(c), "allowed names widened between create() and the evaluator", c.lineno)
+            elif depth < 2:
+                try:
+                    targets = repo.resolve_call(repo.module(SWEEP), c)
+                except Exception:
+                    targets = []
+                if len(targets) == 1 and isinstance(targets[0][1], FuncNode) and targets[0][0].rel == SWEEP and not targets[0][1].decorator_list and parent(targets[0][1]) is targets[0][0].tree:
+                    h = targets[0][1]
+                    if not any(isinstance(k, ast.Call) and isinstance(k.func, ast.Attribute) and k.func.attr == "compile" for k in ast.walk(h)):
+                        continue
+                    hn = nfunc(repo, SWEEP, qualname_of(h), copyprop="all")
+                    hb = bind_call(hn, c, False)
+                    passed = [p for p, v in hb.items() if names_in_fn is not None and names_unchanged(v, names_in_fn, fn)]
+                    compile_sites(hn, qualname_of(h), passed[0] if len(passed) == 1 else None, depth + 1)
+
+    compile_sites(cpe, CPE, names_p)
     if not ok_any:
         raise AnalysisError("_compile_parametric_expressions: evaluator.compile call not found")
+
+    # every callable the factory keeps for a parametric expression is what evaluator.compile() returned for it:
+    # an expression that gets its callable any other way (a literal fast path, a second parser, a fallback
+    # lambda) was accepted without the whitelist having seen it
+    r_sc = R.rule("C11-D3-sweep-compiled", "every value the sweep factory stores for a parametric expression is the result of evaluator.compile(expr, allowed_names); the table is not altered afterwards", 2)
+    ev_p = cpe_params[2] if len(cpe_params) > 2 else "evaluator"
+    ev_intact = not any(isinstance(x, ast.Name) and x.id == ev_p and isinstance(x.ctx, (ast.Store, ast.Del)) for x in walk_no_nested(cpe))
+    cpe_mod = repo.module(SWEEP)
+
+    def compile_on(callee: ast.AST, fn: ast.AST, recv_names: Set[str]) -> bool:
+        if isinstance(callee, ast.Name):
+            callee = local_value(fn, callee.id) or callee  # ``build = evaluator.compile``
+        return isinstance(callee, ast.Attribute) and callee.attr == "compile" and isinstance(callee.value, ast.Name) and callee.value.id in recv_names
+
+    def only_plain_bindings(fn: ast.AST, name: str) -> bool:
+        stores = [x for x in walk_no_nested(fn) if isinstance(x, ast.Name) and x.id == name and isinstance(x.ctx, (ast.Store, ast.Del))]
+        return len(stores) == len(assigned_value(fn, name)) and all(isinstance(parent(x), (ast.Assign, ast.AnnAssign)) for x in stores)
+
+    def compile_result(v: ast.AST, fn: ast.AST, recv_names: Set[str], depth: int = 0) -> bool:
+        """*v* evaluates to what ``<evaluator>.compile(...)`` returned (directly, through a local, or through a
+        repo helper that returns exactly that)."""
+        if depth > 4:
+            return False
+        if isinstance(v, ast.IfExp):
+            return compile_result(v.body, fn, recv_names, depth + 1) and compile_result(v.orelse, fn, recv_names, depth + 1)
+        if isinstance(v, ast.Name):
+            vals = assigned_value(fn, v.id)
+            return bool(vals) and only_plain_bindings(fn, v.id) and all(compile_result(x, fn, recv_names, depth + 1) for x in vals)
+        if isinstance(v, ast.Call):
+            if compile_on(v.func, fn, recv_names):
+                return True
+            try:
+                targets = repo.resolve_call(cpe_mod, v)
+            except Exception:
+                targets = []
+            if len(targets) == 1 and isinstance(targets[0][1], FuncNode) and targets[0][0].rel == SWEEP and not targets[0][1].decorator_list:
+                h = targets[0][1]
+                if any(isinstance(x, (ast.Yield, ast.YieldFrom)) for x in ast.walk(h)):
+                    return False
+                hn = nfunc(repo, SWEEP, qualname_of(h), copyprop="all")
+                hb = bind_call(hn, v, False)
+                recv2 = {p for p, a in hb.items() if isinstance(a, ast.Name) and a.id in recv_names
+                         and not any(isinstance(x, ast.Name) and x.id == p and isinstance(x.ctx, (ast.Store, ast.Del)) for x in walk_no_nested(hn))}
+                rets = [r.value for r in walk_no_nested(hn) if isinstance(r, ast.Return)]
+                return bool(rets) and all(r is not None and compile_result(r, hn, recv2, depth + 1) for r in rets)
+        return False
+
+    recv = {ev_p} if ev_intact else set()
+    seen_vals: Set[int] = set()
+
+    def stored_value(v: ast.AST, site: ast.AST) -> None:
+        if id(v) in seen_vals:
+            return
+        seen_vals.add(id(v))
+        R.check(compile_result(v, cpe, recv), r_sc, SWEEP, CPE, norm(stmt_of(site)),
+                f"`{slice_text(cpe, v, 2)}` is stored as the callable of a parametric expression but is not the result of {ev_p}.compile(...): that expression is accepted "
+                "(or refused with some other error) without the safe-grammar whitelist having seen it", getattr(v, "lineno", cpe.lineno))
+
+    def table_literal(e: ast.AST) -> bool:
+        """*e* builds the table: checks the values it is built with; False when the shape is not understood."""
+        if isinstance(e, ast.Dict):
+            for k, v in zip(e.keys, e.values):
+                if k is None:
+                    if not table_literal(v):
+                        return False
+                else:
+                    stored_value(v, e)
+            return True
+        if isinstance(e, ast.DictComp):
+            stored_value(e.value, e)
+            return True
+        if isinstance(e, ast.Call) and call_name(e) == "dict" and not e.keywords and len(e.args) <= 1:
+            return not e.args or table_literal(e.args[0])
+        return False
+
+    table_names: Set[str] = set()
+    for r in walk_no_nested(cpe):
+        if not isinstance(r, ast.Return):
+            continue
+        if isinstance(r.value, ast.Name) and r.value.id not in cpe_params:
+            nm = r.value.id
+            table_names.add(nm)
+            vals = assigned_value(cpe, nm)
+            if not vals or not only_plain_bindings(cpe, nm) or not all(table_literal(v) for v in vals):
+                raise AnalysisError(f"{CPE}: the returned table `{nm}` is not built from dict literals / comprehensions in this function")
+        elif r.value is None or not table_literal(r.value):
+            raise AnalysisError(f"{CPE}: returns something other than a table built in this function")
+    if not table_names and not seen_vals:
+        raise AnalysisError(f"{CPE}: no returned table found")
+    for n in walk_no_nested(cpe):
+        if isinstance(n, (ast.Assign, ast.AugAssign, ast.AnnAssign)):
+            for t in (n.targets if isinstance(n, ast.Assign) else [n.target]):
+                if isinstance(t, ast.Subscript) and isinstance(t.value, ast.Name) and t.value.id in table_names:
+                    if isinstance(n, ast.AugAssign) or n.value is None:
+                        R.violation(r_sc, SWEEP, CPE, norm(n), "a stored expression callable is rewritten in place", n.lineno)
+                    else:
+                        stored_value(n.value, n)
+                elif isinstance(n, ast.AugAssign) and isinstance(t, ast.Name) and t.id in table_names:
+                    R.check(table_literal(n.value), r_sc, SWEEP, CPE, norm(n), "the table of expression callables is extended from something that is not a table of evaluator.compile results", n.lineno)
+        if isinstance(n, ast.Call) and isinstance(n.func, ast.Attribute) and isinstance(n.func.value, ast.Name) and n.func.value.id in table_names:
+            if n.func.attr in ("setdefault", "__setitem__") and len(n.args) == 2:
+                stored_value(n.args[1], n)
+            elif n.func.attr == "update":
+                for kw in n.keywords:
+                    if kw.arg is not None:
+                        stored_value(kw.value, n)
+                R.check(all(table_literal(a) for a in n.args) and all(kw.arg is not None or table_literal(kw.value) for kw in n.keywords), r_sc, SWEEP, CPE, norm(n),
+                        "the table of expression callables is extended from something that is not a table of evaluator.compile results", n.lineno)
+    # ... and create() keeps that table as returned
+    for c in calls_in(create):
+        if call_attr(c) == CPE:
+            st = stmt_of(c)
+            if isinstance(st, (ast.Assign, ast.AnnAssign)) and st.value is c:
+                for t in (st.targets if isinstance(st, ast.Assign) else [st.target]):
+                    if isinstance(t, ast.Name):
+                        sites = mutation_sites(create, {t.id}, include_nested=True)
+                        rebound = len([x for x in ast.walk(create) if isinstance(x, ast.Name) and x.id == t.id and isinstance(x.ctx, (ast.Store, ast.Del))]) != 1
+                        R.check(not sites and not rebound, r_sc, SWEEP, "ParametricSweepFactory.create", norm(st),
+                                f"the table of compiled expressions `{t.id}` is rebound / altered after {CPE} returned it" + (f" (`{norm(sites[0][0])}`)" if sites else ""),
+                                sites[0][0].lineno if sites else st.lineno)
 
     if R.tier == "thorough":
         # explicit (kind, field) obligations over the whole expression grammar
